@@ -551,9 +551,36 @@ def run(ctx: common.Ctx):
         if res["finals"] != m["finals"]:
             ctx.disagreement(f"interrupted final states differ: impl {res['finals']} model {m['finals']}", {**case, "request": req})
     run_hmc(ctx, rng)
+    all_workers_interrupted(ctx)
+
+
+def all_workers_interrupted(ctx):
+    """More chains than worker processes and EVERY running chain is interrupted at the same call site:
+    all workers stop while chains are still queued; sample_chains must still return."""
+    for n_chain, n_process, x, op in [(4, 2, 3, "t0"), (5, 2, 2, "b"), (3, 2, 4, "t0")][: ctx.n(2, 3)]:
+        cfg = {**c13.DEFAULT, "inits": [[0, 0]] * n_chain, "nw": 0, "nm": 6, "tw": False, "hf": False, "hs": False,
+               "n_process": n_process, "memmap": "mem"}
+        case = {**c13.describe(cfg), "interrupt": ["any-chain", x, op]}
+        res = c13.real_run(cfg, intr_spec=("any", x, op, 0), timeout=90.0)
+        ctx.case(case, nontrivial=True)
+        ctx.count("all_workers_interrupted")
+        replay = {"all_workers": [n_chain, n_process, x, op]}
+        if res["error"]:
+            ctx.violation("all workers interrupted: sample_chains did not return",
+                          f"{n_chain} chains on {n_process} processes, every running chain interrupted in {op} at x={x}: "
+                          f"{res['error']} instead of returning the partial outputs: {case}", replay)
+            continue
+        base = c13.real_run({**cfg, "n_process": 1})
+        if res.get("lengths") != base.get("lengths"):
+            ctx.violation("interrupted run array lengths", f"lengths {res.get('lengths')} vs {base.get('lengths')}: {case}", replay)
 
 
 def replay(ctx, obj):
+    if "all_workers" in obj:
+        sub = common.Ctx(ctx.prop, "thorough", ctx.seed)
+        c13.classes()
+        all_workers_interrupted(sub)
+        return bool(sub.violations)
     c13.classes()
     if "hmc" in obj:
         spec = tuple(obj["hmc"])
